@@ -78,6 +78,7 @@ PROPS = {
                        'primitive and constructed tag forms of strings, nested constructed segments (progress + termination)',
     },
     'C07': {
+        'extra': [('presence guard', extras.presence_guard_check)],
         'assumptions': [GRAPH, 'PER/OER addition decoding (decode_additions) and JER/XER are not under contract'],
         'trusted_base': [FOREIGN],
         'explanation': 'skip/re-synchronisation: an unknown CHOICE alternative is skipped by exactly its TLV, unknown ENUMERATED values '
